@@ -36,6 +36,20 @@ from hypothesis.stateful import RuleBasedStateMachine, run_state_machine_as_test
 
 # When True, checks must not exclude the input classes of KNOWN_FINDINGS.json (used to replay a known finding).
 STRICT = bool(int(os.environ.get("VERIF_STRICT", "0")))
+# Journal mode (set by the runner when it re-runs a shard whose worker process died): the case about to be evaluated
+# is written to this path first, so that the input on which the code under test terminated the interpreter
+# (a C library calling exit(), a segmentation fault) can be saved as a replay file.
+JOURNAL = None
+
+
+def journal(case):
+    if JOURNAL:
+        try:
+            with open(JOURNAL + ".tmp", "wb") as f:
+                pickle.dump(case, f, protocol=4)
+            os.replace(JOURNAL + ".tmp", JOURNAL)
+        except Exception:  # noqa: BLE001  (an unpicklable case must not turn into a failure of its own)
+            pass
 
 
 class Violation(AssertionError):
@@ -265,6 +279,7 @@ def run_fn_facet(facet: Facet, n: int, hseed: int, budget_s: float, shrink=True)
             return
         if rec.shrink_exhausted() and case_hash(case) != rec.best_hash:
             return
+        journal(case)
         try:
             if rec.failure is None and rec.traced < TRACE_CASES:
                 rec.traced += 1
@@ -305,6 +320,7 @@ class RecordingMachine(RuleBasedStateMachine):
 
     def step(self, name, **kw):
         self.log.append((name, kw))
+        journal(list(self.log))
 
     def tag(self, t):
         self.info["tags"].append(t)
